@@ -56,7 +56,7 @@ namespace {
       for (int i = 0; i < n; ++i) {
         J op = J::object();
         op["a"] = J(int(plan.below(uint64_t(T))));
-        const int k = int(plan.below(26));
+        const int k = int(plan.below(27));
         switch (k) {
         case 0:
         case 1:
@@ -129,6 +129,9 @@ namespace {
         case 22:
         case 23:
           op["k"] = J("bg_use"); // use() of the two-part file, free-running: may overlap get_state / set_state of the chain
+          break;
+        case 26:
+          op["k"] = J("bg_addtype"); // add(user_type, name) free-running: two registry steps that a snapshot may fall between
           break;
         case 24:
           op["k"] = J("def_mm"); // a method_missing handler for ints: answers every member call nothing else matches
@@ -210,7 +213,7 @@ namespace {
       {
         int last = -1;
         for (size_t i = 0; i < ops.size(); ++i) {
-          if (ops[i].at("k").str() != "bg" && ops[i].at("k").str() != "bg_use") {
+          if (ops[i].at("k").str() != "bg" && ops[i].at("k").str() != "bg_use" && ops[i].at("k").str() != "bg_addtype") {
             dep[i] = last;
             last = int(i);
           }
@@ -228,6 +231,8 @@ namespace {
       std::vector<std::string> fail(static_cast<size_t>(T));
       std::vector<std::map<std::string, int64_t>> cnt(static_cast<size_t>(T));
       std::atomic<int> chain_in_progress{0};
+      std::atomic<int> bg_types_in_flight{0};
+      std::atomic<int> bg_type_events{0}; // bumped when a background registration starts and when it ends
 
       auto is_err = [](const std::string &out) { return out.rfind("!eval_error|", 0) == 0; };
 
@@ -289,6 +294,17 @@ namespace {
               bad(oi, "used-file-function-differs-from-model", "from_u" + std::to_string(u) + "() -> " + out);
             }
           }
+          const int type_events_before = bg_type_events.load();
+          if (bg_types_in_flight.load() == 0) {
+            // a registered type consists of the global <name>_type and the entry in the type table: whatever
+            // snapshots and restores happened while it was being registered, the state holds both or neither
+            const bool has_global = eval_show(e, "TyBG_type").rfind("!eval_error|Can not find object", 0) != 0;
+            const bool has_type = eval_show(e, "type(\"TyBG\", false).is_type_undef()") == "=false";
+            // (the two observations are only comparable if no background registration ran between them)
+            if (has_global != has_type && bg_type_events.load() == type_events_before) {
+              bad(oi, "type-half-registered", std::string("global TyBG_type ") + (has_global ? "present" : "absent") + " but type table entry " + (has_type ? "present" : "absent"));
+            }
+          }
           {
             // an unmatched member call on an int: answered by method_missing iff the state has one
             const std::string out = eval_show(e, "1.no_such_member_zz()");
@@ -312,6 +328,27 @@ namespace {
         for (size_t oi : mine[size_t(a)]) {
           const J &op = ops[oi];
           const std::string k = op.at("k").str();
+          if (k == "bg_addtype") {
+            OpScope scope;
+            bg_types_in_flight.fetch_add(1);
+            bg_type_events.fetch_add(1);
+            std::string out;
+            try {
+              e.add(user_type<TypeTag<9>>(), "TyBG");
+              out = "added";
+            } catch (const exception::name_conflict_error &) {
+              out = "conflict";
+            } catch (...) {
+              out = "!" + describe_current_exception(&e);
+              bad(oi, "background-eval-unclean", out);
+            }
+            bg_type_events.fetch_add(1);
+            bg_types_in_flight.fetch_sub(1);
+            cnt[size_t(a)]["probe_background_type_registration"] += 1;
+            sim_log(3, uint64_t(oi), fnv1a(out));
+            done[oi].store(1);
+            continue;
+          }
           if (k == "bg_use") {
             OpScope scope;
             const bool overlapping = chain_in_progress.load() != 0;
